@@ -34,7 +34,7 @@ fn mulg<G: AffineRepr>(p: &G, s: &Fr<G>) -> G::Group {
 
 fn case<G: CurveTag>(bytes: &[u8], col: &mut Collector, max_gates: usize) -> Result<(), Failure> {
     let mut ch = Choices::new(bytes);
-    let cfg = GenCfg { max_ops1: 8, max_closures: 2, max_ops2: 5, max_commits: 3, big_gates: 0 };
+    let cfg = GenCfg { max_ops1: 8, max_closures: 2, max_ops2: 5, max_commits: 3, big_gates: 0 , max_terms: 4};
     let mut prog = gen_program(&mut ch, G::CURVE, &cfg);
     prog.cap_p = Cap::Big;
     let shape = prog.shape();
